@@ -13,4 +13,5 @@ import RepidModel.Driver.State
 import RepidModel.Driver.Mem
 import RepidModel.Worker.Processor
 import RepidModel.Worker.Chain
+import RepidModel.Pred.Worker
 import RepidModel.Driver.Worker
